@@ -417,7 +417,14 @@ def history(rng, version, length, profile):
         elif k < profile.get("garbage", 0.15) + profile.get("ctl", 0.12):
             m = rng.random()
             if m < 0.7:
-                st.append(ctl_set(rng, version, semicolon=profile.get("semicolon", False)))
+                cs = ctl_set(rng, version, semicolon=profile.get("semicolon", False))
+                st.append(cs)
+                if rng.random() < 0.3 and isinstance(cs[4], str) and ";" not in cs[4] and str(cs[3]).isdigit():
+                    # the node confirms the command by sending it back (as it does for commands that ask for an ack),
+                    # or simply reports the commanded value: an accepted report like any other
+                    if rng.random() < 0.6:
+                        cs[5] = {"ack": 1}
+                    st.append(["in", f"{cs[1]};{cs[2]};1;{rng.choice([1, 1, 0])};{int(cs[3])};{cs[4]}"])
             elif m < 0.85 and profile.get("ota"):
                 ft, fv = rng.choice([0, 1, 2]), rng.choice([0, 1])
                 if profile.get("fwrange") and rng.random() < 0.3:
